@@ -461,7 +461,7 @@ def safe_panics(ctx, F):
     for path in ("chess::piece::Piece::score", "chess::Game::get_king_position", "chess::Game::set_king_position",
                  "chess::Game::update_phase"):
         fn = F.fn(path)
-        for b in fn["mir"]["blocks"]:
+        for bi_, b in enumerate(fn["mir"]["blocks"]):
             t = b["term"]
             if t["k"] == "Assert" and t["msg"] == "BoundsCheck":
                 n += 1
@@ -501,6 +501,26 @@ def safe_panics(ctx, F):
                         mx = max(v["discr"] for v in F.adts[src]["variants"])
                         ok = lenv is not None and mx < lenv
                         found["max discriminant"] = mx
+                if not ok and bounds_by_intervals(fn, bi_):
+                    ok = True
+                    found["index"] = "within the length on every path (interval analysis)"
                 ctx.check("C15.PANIC", "bounds-check:%s#%d" % (path, n), ok, fn=path, file=fn["file"], line=mir.span_line(t),
                           what="a checked index in the evaluation hot path can be out of range (panic)", found=found)
     ctx.floor("C15.PANIC", "bounds-checked hot-path indexings", n, 3)
+
+
+_IV_CACHE = {}
+
+
+def bounds_by_intervals(fn, block):
+    """Is the bounds-check assert terminating `block` discharged by the forward interval analysis of the function?"""
+    from . import ranges as _rng
+    key = (id(fn), fn["path"])
+    if key not in _IV_CACHE:
+        try:
+            a = _rng.Analysis(fn)
+            a.run()
+            _IV_CACHE[key] = {o[0]: o[2] for o in a.obligations if o[1] == "BoundsCheck"}
+        except Exception:
+            _IV_CACHE[key] = {}
+    return _IV_CACHE[key].get(block) is True
